@@ -239,7 +239,13 @@ def solve_exact_cover(
     iterations = 0
     covers = 0
 
-    def search():
+    # Nodes being expanded, innermost last: [chosen column, row currently tried].
+    # An explicit stack instead of recursion, so that covers of more than ~1000 rows
+    # do not overflow the interpreter's recursion limit.
+    frames: list[list] = []
+
+    def enter():
+        """Open one search node: True/False as its final answer, None if it was expanded onto frames."""
         nonlocal iterations, covers
         iterations += 1
         if iterations > max_iter:
@@ -269,18 +275,36 @@ def solve_exact_cover(
 
         _cover(min_col)
         covers += 1
+        frames.append([min_col, min_col.down])
+        return None
 
-        row_node = min_col.down
-        while row_node is not min_col:
-            current.append(row_node.row)
+    def search():
+        nonlocal covers
+        found = enter()
+        while frames:
+            min_col, row_node = frames[-1]
 
-            node = row_node.right
-            while node is not row_node:
-                _cover(node.column)
-                covers += 1
-                node = node.right
+            if found is None:
+                # Try the next row of the innermost node
+                if row_node is min_col:
+                    _uncover(min_col)
+                    frames.pop()
+                    found = False
+                    continue
 
-            if search():
+                current.append(row_node.row)
+
+                node = row_node.right
+                while node is not row_node:
+                    _cover(node.column)
+                    covers += 1
+                    node = node.right
+
+                found = enter()
+                continue
+
+            # The node below this row has answered
+            if found:
                 if not find_all:
                     return True
                 if max_solutions and len(solutions) >= max_solutions:
@@ -292,10 +316,10 @@ def solve_exact_cover(
                 _uncover(node.column)
                 node = node.left
 
-            row_node = row_node.down
+            frames[-1][1] = row_node.down
+            found = None
 
-        _uncover(min_col)
-        return False
+        return found
 
     search()
 
